@@ -9,7 +9,7 @@ CFG = {
  # a contract panic is observed as P and rejected by the specification.
  'runs': [{'tags': 'verif'}, {'tags': 'verif debug'}],
  'rule': 'a case is (T, node as bit list), height = top bit of T, BOTH sides build the path word; '
-         'cases = every T in [1,2^7) x every node; heights 0..30 x 8 structured masks x every length x 6 extreme paths; '
+         'cases = (first in the run, against hidden state) one node under runs of sibling / unrelated masks of its height and one mask with runs of sibling nodes; every T in [1,2^7) x every node; heights 0..30 x 8 structured masks x every length x 6 extreme paths; '
          'random heights 7..30 (30 forced in 1/8) with full / leaf-only / sparse / dense / full-minus-one-level / '
          'leaf-plus-one-level / random masks x nodes of every length (left-most, right-most, alternating, single-bit, random); '
          'PathToIndexLoose on every node, PathToIndex only on nodes of a stored level; each case in the release and the debug build; '
